@@ -121,6 +121,7 @@ def run(res, tier, seed, search):
         metric, kind = COMBOS[(start + i) % len(COMBOS)]
         for r in range(reps):
             api_case(res, rng, metric, kind)
+    dk.check_blocks(res, rng, 40 if tier == "quick" else 300)
     big_case(res, rng, "dense32")
     big_case(res, rng, "dense32", extra=3)
     if tier != "quick" or search:
